@@ -445,7 +445,28 @@ func cmdCheck(args []string) int {
 		case "proved":
 			discharged++
 		case "failed":
-			report(a.Name, "obligation refuted by the solver", a)
+			unevaluable, first := true, ""
+			for _, p := range a.Parts {
+				if p.Status == "proved" {
+					continue
+				}
+				if strings.HasPrefix(p.Note, "CANNOT BE EVALUATED") {
+					if first == "" {
+						first = strings.TrimPrefix(p.Note, "CANNOT BE EVALUATED: ")
+						if i := strings.Index(first, " | "); i > 0 {
+							first = first[:i]
+						}
+					}
+				} else {
+					unevaluable = false
+				}
+			}
+			if unevaluable && first != "" {
+				// not a refutation: the clause names a local, field or call site the current code no longer has
+				report(a.Name, "contract no longer applies to the code — the clause cannot be evaluated ("+first+"): undecided until the contract is updated with the code", a)
+			} else {
+				report(a.Name, "obligation refuted by the solver", a)
+			}
 		default:
 			report(a.Name, "obligation not discharged ("+a.Status+")", a)
 		}
@@ -639,6 +660,23 @@ func cmdExpect(args []string) int {
 		if n := a.vacuousParts(); n > 0 {
 			spec.Vacuous[a.Name] = n
 		}
+	}
+	// names of locals and parameters the contracts of these units use, with their position-based descriptors
+	lpath := filepath.Join(verifRoot, "checks", "locals", "hints.json")
+	hints := map[string]map[string]localHint{}
+	if old, err := os.ReadFile(lpath); err == nil {
+		json.Unmarshal(old, &hints)
+	}
+	for _, e := range cr.engines {
+		e.localMu.Lock()
+		for fn, m := range e.localsUsed {
+			hints[fn] = m // the function's whole entry is replaced: stale names disappear
+		}
+		e.localMu.Unlock()
+	}
+	os.MkdirAll(filepath.Dir(lpath), 0o755)
+	if ld, err := json.MarshalIndent(hints, "", " "); err == nil {
+		os.WriteFile(lpath, append(ld, '\n'), 0o644)
 	}
 	data, _ := json.MarshalIndent(spec, "", " ")
 	os.WriteFile(filepath.Join(verifRoot, "checks", spec.Property+".json"), append(data, '\n'), 0o644)
